@@ -662,7 +662,7 @@ impl Run {
                 continue;
             }
             n_viol += 1;
-            let path = format!("{VERIF_DIR}/replays/{}-{}-{}.json", self.id, self.tier, n_viol);
+            let path = format!("{VERIF_DIR}/replays/{}-{}-{}{}.json", self.id, self.tier, n_viol, if self.replay.is_some() { "-replayed" } else { "" });
             let doc = J::obj(vec![
                 ("property_id", J::s(self.id.clone())),
                 ("tier", J::s(self.tier.clone())),
